@@ -678,12 +678,58 @@ def corpus_cases(R, r):
         R.ctxs += [ctx] * len(hc.ops)
 
 
+def corpus_ref_struct(R, r):
+    """assigning an existing reference-holding struct of the SAME buffer to a nested slot (regression of the byte-copy fix):
+    the nested reference must denote the source's referent"""
+    xo = common.import_xobjects()
+    tT = ("struct", "CT", [("v", ("scalar", 2))])
+    tR = ("struct", "CR", [("p", ("ref", tT)), ("x", ("scalar", 2))])
+    tB = ("struct", "CB", [("r", tR), ("k", ("scalar", 2))])
+    cache = {}
+    cT, cR, cB = T.build(tT, cache), T.build(tR, cache), T.build(tB, cache)
+    hc = H(r)
+    ctx = {"component": "heap", "corpus": "assign-ref-struct-same-buffer", "type": T.sexp(tB)}
+    buf = hc.bufs[0]
+    t1 = cT(v=11, _buffer=buf)
+    t2 = cT(v=22, _buffer=buf)
+    hc.note_allocs()
+    hc.ops += [f"type TT {T.sexp(tT)}", "new TT t1 0 (dict (v (bits 11)))", "new TT t2 0 (dict (v (bits 22)))"]
+    hc.exp += ["ok", None, f"off {t2._offset} mems {mems(hc.bufs)}"]
+    b = cB(r={"p": t1, "x": 1}, k=7, _buffer=buf)
+    hc.note_allocs()
+    hc.ops += [f"type T {T.sexp(tB)}", "new T h0 0 (dict (r (dict (p (obj t1)) (x (bits 1)))) (k (bits 7)))"]
+    hc.exp += ["ok", f"off {b._offset} mems {mems(hc.bufs)}"]
+    src = cR(p=t2, x=2, _buffer=buf)
+    hc.note_allocs()
+    hc.ops += [f"type TI {T.sexp(tR)}", "new TI inst 0 (dict (p (obj t2)) (x (bits 2)))"]
+    hc.exp += ["ok", f"off {src._offset} mems {mems(hc.bufs)}"]
+    try:
+        b.r = src
+        res = "ok"
+    except Exception as ex:
+        res = "err " + L.exc_name(ex)
+    hc.ops.append("upd h0 f:r (obj inst)")
+    hc.exp.append(f"{res} mems {mems(hc.bufs)}")
+    try:
+        tgt = b.r.p
+        if tgt is None or int(tgt._offset) != int(t2._offset) or int(tgt.v) != 22 or int(b.r.x) != 2 or int(b.k) != 7:
+            R.fail("C08:assigned-reference-wrong", f"b.r = r (same buffer, r.p -> object at {int(t2._offset)}): b.r.p now resolves to {getattr(tgt, '_offset', None)} (v={getattr(tgt, 'v', None)}), x={int(b.r.x)}, k={int(b.k)}", ctx)
+    except Exception as ex:
+        R.fail("C08:assigned-reference-unreadable", f"b.r = r: reading b.r.p raises {type(ex).__name__}: {str(ex)[:120]}", ctx)
+    all_refs_valid(hc, tB, b, cache, R.fails, ctx, "after assigning a reference-holding struct")
+    R.tags["corpus.assign-ref-struct"] += 1
+    R.lines += hc.ops
+    R.expect += hc.exp
+    R.ctxs += [ctx] * len(hc.ops)
+
+
 def run_all(tier, seed, n=None):
     r = random.Random(seed * 999331 + 29)
     R = L.Run()
     n = n or {"quick": 120, "thorough": 3000}[tier]
     misuse_cases(R, r)
     corpus_cases(R, r)
+    corpus_ref_struct(R, r)
     for _ in range(n):
         run_case(R, r)
     cases, cur = [], []
